@@ -17,6 +17,10 @@ type Sc struct {
 	B   uint64
 	Tol uint16
 	Ind bool
+	// ZS: an f32 zero whose SIGN is not pinned down (the zero results of round / floor / ceil / trunc differ in sign
+	// between target languages, e.g. GLSL round(-0.25)); it propagates through arithmetic that yields zero again and
+	// makes the value unobservable through bitcast. ±0 compare equal as floats anyway.
+	ZS bool
 }
 
 // Val is a value: type + flattened scalar leaves in declaration order.
